@@ -137,8 +137,16 @@ def run(ck):
     tdef = single_def(fn, table)
     is_dd = tdef is not None and call_name(tdef) in ('defaultdict', 'collections.defaultdict')
     loops_apply = [n for n in fn.body if isinstance(n, ast.While)]
-    ck.need(len(loops_apply) == 1, 'do_mapping: the match application loop (while) not found')
-    wl = loops_apply[0]
+    merge_loops = [n for n in fn.body if isinstance(n, ast.For) and isinstance(n.iter, ast.Call) and (call_name(n.iter) or '').split('.')[-1] == 'merge']
+    ck.need(len(loops_apply) + len(merge_loops) == 1, 'do_mapping: the match application loop (a while over the two sorted lists, or a for over their merge) not found')
+    wl = (loops_apply + merge_loops)[0]
+    if merge_loops:
+        # heapq.merge is stable in argument order: on equal keys the first sequence wins, and that must be the blocks (a modification is applied after
+        # the block that creates the particle it is anchored on)
+        margs = [single_def(fn, a.id) if isinstance(a, ast.Name) else a for a in wl.iter.args]
+        first_block = len(margs) == 2 and all(m is not None for m in margs) and 'block_sort_key' in u(margs[0]) and 'mod_sort_key' in u(margs[1])
+        ck.ob('MPT-one-copy', mod.loc(wl), first_block, 'the merged walk takes the block placement first when a block and a modification placement have the same key '
+              '(`{}`)'.format(u(wl.iter)[:80]), key='MPT-one-copy|tie-break')
     after = fn.body[fn.body.index(wl) + 1:]
     nreads = 0
     SAFE_ITERABLES = {table, table + '.keys()', 'overlapping_mappings', 'edges'}
@@ -221,13 +229,14 @@ def run(ck):
         applies = [e for e in events if isinstance(e, ast.AST) and any(isinstance(c, ast.Call) and call_name(c) in ('apply_block_mapping', 'apply_mod_mapping') for c in ast.walk(e))]
         appended = [e for e in events if isinstance(e, ast.Expr) and call_attr(e.value) == 'append' and u(e.value.func.value) == 'all_matches']
         detail.append((len(pops), len(applies), len(appended), kind))
-        ok = ok and len(pops) == 1 and len(applies) == 1 and len(appended) == 1 and kind == 'fall'
+        ok = ok and len(pops) == (1 if isinstance(wl, ast.While) else 0) and len(applies) == 1 and len(appended) == 1 and kind == 'fall'
         if pops and applies:
             which = 'block' if 'block_matches.pop' in u(pops[0]) else 'mod'
             ok = ok and (('apply_block_mapping' in u(applies[0])) == (which == 'block')) and u(pops[0].value.args[0] if isinstance(pops[0], ast.Assign) else ast.Constant(-1)) == '-1'
     ck.ob('MPT-one-copy', mod.loc(wl), ok and len(paths) == 2, 'every pass of the application loop takes exactly one placement off one work list, applies it once and records it '
           '(paths: {})'.format(detail), key='MPT-one-copy|loop')
-    ck.ob('MPT-one-copy', mod.loc(wl), u(wl.test) == 'block_matches or mod_matches', 'the loop runs until both work lists are empty', key='MPT-one-copy|exhaust')
+    ck.ob('MPT-one-copy', mod.loc(wl), isinstance(wl, ast.While) and u(wl.test) == 'block_matches or mod_matches' or (isinstance(wl, ast.For) and not
+          any(isinstance(n_, ast.Break) for n_ in ast.walk(wl))), 'the loop runs until both work lists are empty', key='MPT-one-copy|exhaust')
     srt = {u(s.targets[0]): s.value for s in fn.body if isinstance(s, ast.Assign) and isinstance(s.value, ast.Call) and call_name(s.value) == 'sorted'}
     ok = set(srt) >= {'block_matches', 'mod_matches'} and all(try_fold(kwarg(v, 'reverse')) is True for v in srt.values()) and \
         u(kwarg(srt['block_matches'], 'key')) == 'block_sort_key' and u(single_def(fn, 'block_sort_key')) == 'lambda x: min(x[0].keys())'
